@@ -69,6 +69,7 @@ codes! { OpCode, OPS:
     BulkEdges = "bulkedges" / 3,   // owner h, target h, n  (n traced pointers to the target stored in the owner)
     BulkEdgesDrop = "bulkedgesdrop" / 2, // owner h, n
     DebugChain = "debugchain" / 1, // n: format a chain of n nested Cc with {:?} and compare with the same chain of Boxes
+    CmpChain = "cmpchain" / 3,     // left shape (len | cyclic<<8 | entry<<12), right len, 2*diff position + sign: Eq/Ord through linked Cc against a plain model
     Compare = "compare" / 2,       // h, h   (forwarding traits, ptr_eq)
     Observe = "observe" / 0,       // explicit full observation (also runs after every op)
 }
